@@ -12,6 +12,12 @@ def obligations(tier):
     quick = [("D01", 4), ("D02", 5), ("D03", 5), ("D04", 5), ("D05a", 6), ("D06", 7), ("D08", 4), ("D09", 8), ("D09b", 8), ("D12", 7), ("D15", 4), ("D17", 5)]
     for did, steps in quick:
         obs.append(ob("C01", "e2c." + did, "vt.harness.C01:justified", {"did": did, "steps": steps, "bits": True}, timeout=900))
+    # nested split + join: every task of the split branch runs once per route; outcomes all succeed, two-way interleaving
+    o = ob("C01", "e2c.D14", "vt.harness.C01:justified", {"did": "D14", "steps": 11, "statuses": ["succeeded"], "max_inflight": 2}, timeout=1800)
+    o["antecedents"] = ["c01_final"]
+    obs.append(o)
+    o = ob("C01", "e2c.lazy.D14", "vt.harness.C01:justified", {"did": "D14", "steps": 11, "statuses": ["succeeded"], "max_inflight": 1, "order": False, "lazy_start": 2}, timeout=1800)
+    obs.append(o)
     obs.append(ob("C01", "twin.D03", "vt.harness.C01:justified", {"did": "D03", "steps": 5, "bits": True, "twin": True}, timeout=60))
     for o in obs:
         if "e2c." in o["id"]:
